@@ -12,10 +12,12 @@ import (
 	"regexp"
 	"strconv"
 	"strings"
+	"sync"
 
 	"github.com/zmap/zlint/v3/lint"
 
 	"verif/corpus"
+	"verif/gen"
 	"verif/mon"
 )
 
@@ -297,6 +299,27 @@ func decodeObjects(out string) ([]map[string]cliResult, error) {
 	return objs, nil
 }
 
+var (
+	c15BigOnce sync.Once
+	c15Big     []*mon.Obj
+)
+
+// c15BigObjs: subscriber certificates with 1 500 - 6 000 dNSNames (33 - 135 KiB of DER)
+func c15BigObjs() []*mon.Obj {
+	c15BigOnce.Do(func() {
+		for _, n := range []int{1500, 2100, 2300, 2800, 3000, 6000} {
+			names := make([]string, n)
+			for k := range names {
+				names[k] = fmt.Sprintf("h%05d.example.com", k)
+			}
+			if o, _ := mon.ParseObj(corpus.Cert, fmt.Sprintf("gen/big/%d-names", n), gen.TLSLeaf(gen.D(2024, 3, 1), names...).DER()); o != nil {
+				c15Big = append(c15Big, o)
+			}
+		}
+	})
+	return c15Big
+}
+
 func c15Case(c *mon.Ctx, i int) {
 	rng := c.Rng(i, 0)
 	dir, err := os.MkdirTemp(c.Work, "cli.")
@@ -306,6 +329,14 @@ func c15Case(c *mon.Ctx, i int) {
 	defer os.RemoveAll(dir)
 	mode := i % 10
 	pick := func() *mon.Obj {
+		if i%13 == 5 {
+			// inputs beyond the sizes buffers and line readers are commonly sized for (32 / 48 / 64 / 128 KiB of DER or of
+			// its base64 text): the same certificate must come through every encoding and channel
+			if big := c15BigObjs(); len(big) > 0 {
+				c.R.Count("big_inputs", 1)
+				return big[(i/13)%len(big)]
+			}
+		}
 		for k := 0; k < 50; k++ {
 			var o *mon.Obj
 			if r := rng.Intn(9); r < 3 {
